@@ -15,7 +15,6 @@ out = ''
 cur = path
 texts = {}
 for part in parts:
-    part = part.lstrip('\n') if part is not parts[0] else part
     if part is not parts[0]:
         first, _, rest = part.partition('\n')
         if first.strip():
